@@ -234,6 +234,12 @@ pub enum QErr {
 
 /// string with n-bit length prefix (H bit above). Returns (upper flags, string, used)
 pub fn get_string(b: &[u8], n: u8) -> Result<(u8, Vec<u8>, usize), QErr> {
+    get_string_opts(b, n, false)
+}
+
+/// `lenient_long_padding` mirrors the known finding D9b (all-ones padding of 8 or more bits is
+/// taken as padding); it is only used to keep searching behind that finding.
+pub fn get_string_opts(b: &[u8], n: u8, lenient_long_padding: bool) -> Result<(u8, Vec<u8>, usize), QErr> {
     let d = get_int(b, n).ok_or(QErr::Truncated)?;
     let h = d.flags & 1 == 1;
     let upper = d.flags >> 1;
@@ -244,7 +250,16 @@ pub fn get_string(b: &[u8], n: u8) -> Result<(u8, Vec<u8>, usize), QErr> {
     }
     let len = len as usize;
     let payload = &rest[..len];
-    let s = if h { huffman::decode(payload).map_err(QErr::Huffman)? } else { payload.to_vec() };
+    let s = if h {
+        let dd = huffman::decode_detail(payload);
+        match dd.result {
+            Ok(s) => s,
+            Err(_) if lenient_long_padding && dd.tail_all_ones && dd.tail_bits >= 8 => dd.prefix,
+            Err(e) => return Err(QErr::Huffman(e)),
+        }
+    } else {
+        payload.to_vec()
+    };
     Ok((upper, s, d.used + len))
 }
 
@@ -253,6 +268,10 @@ pub fn get_string(b: &[u8], n: u8) -> Result<(u8, Vec<u8>, usize), QErr> {
 
 /// Decode an encoded field section under dynamic table capacity 0 (RFC 9204 section 4.5).
 pub fn decode_section(b: &[u8]) -> Result<Vec<Field>, QErr> {
+    decode_section_opts(b, false)
+}
+
+pub fn decode_section_opts(b: &[u8], lenient: bool) -> Result<Vec<Field>, QErr> {
     // prefix
     let ric = get_int(b, 8).ok_or(QErr::Truncated)?;
     let rest = &b[ric.used..];
@@ -291,13 +310,13 @@ pub fn decode_section(b: &[u8]) -> Result<Vec<Field>, QErr> {
             if d.value >= 99 {
                 return Err(QErr::StaticIndex(d.value));
             }
-            let (_, v, used) = get_string(&r[d.used..], 7)?;
+            let (_, v, used) = get_string_opts(&r[d.used..], 7, lenient)?;
             out.push((STATIC_TABLE[d.value as usize].0.as_bytes().to_vec(), v));
             pos += d.used + used;
         } else if first & 0xe0 == 0x20 {
             // literal with literal name: 001 N H namelen(3+)
-            let (_, name, used) = get_string(r, 3)?;
-            let (_, value, used2) = get_string(&r[used..], 7)?;
+            let (_, name, used) = get_string_opts(r, 3, lenient)?;
+            let (_, value, used2) = get_string_opts(&r[used..], 7, lenient)?;
             out.push((name, value));
             pos += used + used2;
         } else if first & 0xf0 == 0x10 {
